@@ -253,6 +253,31 @@ func H_clear_incr_clear_incr() {
 	vnd.Reach("executed")
 }
 `)
+	b.WriteString(`
+// a full update denotes exactly the rule set of its text, also when that very text was in force before an
+// incremental update changed the set (text in force from construction, and from a full update)
+func H_full_incr_same_full() {
+	text := zzRule("a", 1, "9") + zzRule("b", 1, "5")
+	for how := 0; how < 2; how++ {
+		var gp *GenginePool
+		if how == 0 {
+			g, e := NewGenginePool(1, 2, SortModel, text, zzApis())
+			zzMust(e, "pool construction")
+			gp = g
+		} else {
+			gp, _ = zzState(0, 3, 2)
+			zzMust(gp.UpdatePooledRules(text), "full update")
+		}
+		q := vnd.Int64("q")
+		zzMust(gp.UpdatePooledRulesIncremental(zzRule("a", 2, vnd.SalText(q))+zzRule("x", 2, "1")), "incremental update")
+		zzCheckPool(gp, map[string]zzSpec{"a": {2, q, "da"}, "b": {1, 5, "db"}, "x": {2, 1, "dx"}}, SortModel)
+		zzMust(gp.UpdatePooledRules(text), "the earlier full text again")
+		zzCheckPool(gp, map[string]zzSpec{"a": {1, 9, "da"}, "b": {1, 5, "db"}}, SortModel)
+	}
+	vnd.Reach("executed")
+}
+`)
+	fam.Instances = append(fam.Instances, Instance{Func: "H_full_incr_same_full", Stratum: "sequence", Desc: "full text in force, incremental update, the same full text again", Expect: []string{"executed"}})
 	fam.Instances = append(fam.Instances, Instance{Func: "H_clear_full_incr_remove", Stratum: "sequence", Desc: "clear, full update, incremental update, removal", Expect: []string{"executed"}},
 		Instance{Func: "H_clear_incr_clear_incr", Stratum: "sequence", Desc: "clear, incremental update, clear twice, incremental update", Expect: []string{"executed"}})
 	// a six-rule pool (saliences 10..5) and an incremental update with a symbolic salience: the
